@@ -15,6 +15,7 @@ import json
 import os
 import sys
 import traceback
+import types
 from fractions import Fraction
 
 VERIF = os.path.dirname(os.path.dirname(os.path.abspath(__file__)))
@@ -53,10 +54,28 @@ def to_py(v):
     return v
 
 
-def load_module(path):
-    spec = importlib.util.spec_from_file_location('contracts_' + os.path.basename(path)[:-3], path)
-    mod = importlib.util.module_from_spec(spec)
-    spec.loader.exec_module(mod)
+class _LazyImplies(ast.NodeTransformer):
+    """implies(a, b) is lazy in the contract language: natively it becomes (not a) or b"""
+    def visit_Call(self, node):
+        self.generic_visit(node)
+        if isinstance(node.func, ast.Name) and node.func.id == 'implies' and len(node.args) == 2 and not node.keywords:
+            return ast.BoolOp(op=ast.Or(), values=[ast.UnaryOp(op=ast.Not(), operand=node.args[0]), node.args[1]])
+        return node
+
+
+def lazy(text):
+    tree = _LazyImplies().visit(ast.parse(text.strip(), mode='eval'))
+    return compile(ast.fix_missing_locations(tree), '<clause>', 'eval')
+
+
+def load_module(path, name=None):
+    name = name or 'contracts_' + os.path.basename(path)[:-3]
+    with open(path, encoding='utf-8') as f:
+        tree = _LazyImplies().visit(ast.parse(f.read(), path))
+    mod = types.ModuleType(name)
+    mod.__file__ = path
+    sys.modules[name] = mod
+    exec(compile(ast.fix_missing_locations(tree), path, 'exec'), mod.__dict__)
     return mod
 
 
@@ -108,10 +127,28 @@ def attempt(req, cmod, c, member_expr):
     if c.get('witness'):
         selfobj = eval(c['witness'], ns)
     out['built'] = True
+    out.update(evaluate(c, req.get('case', 'contract'), ns, fn, selfobj, args))
+    return out
+
+
+def namespace(cmod, c):
+    mod, fn = resolve(c['file'], c['func'])
+    import frappy.errors
+    ns = dict(vars(frappy.errors))
+    ns.update(vars(cmod))
+    ns.update({k: v for k, v in vars(mod).items() if not k.startswith('__')})
+    return ns, fn
+
+
+def evaluate(c, case, ns, fn, selfobj, args, ghosts=None, call=None):
+    """run the real function on (selfobj, args) and evaluate the contract's clauses on the observed outcome.
+    ghosts: name -> live object (ghost logs kept by instrumentation); call: override for the invocation"""
+    out = {'violated': [], 'clauses': {}}
     env = dict(args)
+    ghosts = ghosts or {}
+    env.update(ghosts)
     if selfobj is not None:
         env['self'] = selfobj
-    case = req.get('case', 'contract')
     if case == 'contract':
         ens, rai, extra = c.get('ensures', {}), c.get('raises', {}), []
     else:
@@ -121,37 +158,45 @@ def attempt(req, cmod, c, member_expr):
     pre_ok = True
     for text in list(c.get('requires', [])) + list(c.get('assumes', [])) + list(extra):
         try:
-            if not eval(text, ns, dict(env)):
+            if not eval(lazy(text), ns, dict(env)):
                 pre_ok = False
-        except Exception:
+                out.setdefault('pre_failed', []).append(text)
+        except Exception as e:
             pre_ok = False
+            out.setdefault('pre_failed', []).append(f'{text}: {type(e).__name__}: {e}')
     out['pre_ok'] = pre_ok
+    if not pre_ok and ghosts is not None and call is not None:
+        return out
     olds = {}
     for text in list(ens.values()) + (list(rai.values()) if isinstance(rai, dict) else []):
         for oe in old_exprs(text):
-            olds[oe] = copy.deepcopy(eval(oe, ns, dict(env)))
+            olds[oe] = _snapshot(eval(oe, ns, dict(env)))
     call_args = dict(args)
-    out['args'] = {k: repr(v) for k, v in call_args.items()}
-    out['receiver'] = repr(selfobj)
+    out['args'] = {k: repr(v)[:300] for k, v in call_args.items()}
+    out['receiver'] = repr(selfobj)[:300]
     try:
-        if selfobj is not None:
+        if call is not None:
+            result = call()
+        elif selfobj is not None:
             result = fn(selfobj, **call_args)
         else:
             result = fn(**call_args)
         out['outcome'] = 'ret'
-        out['result'] = repr(result)
+        out['result'] = repr(result)[:500]
         env['result'] = result
         clauses = ens
         if rai == 'must':
             out['violated'].append('must-raise')
     except Exception as e:      # the real code raised
         out['outcome'] = 'exc'
-        out['exc'] = f'{type(e).__name__}: {e}'
+        out['exc'] = f'{type(e).__name__}: {e}'[:500]
         env['exc'] = type(e)
         env['excval'] = e
         clauses = rai if isinstance(rai, dict) else {}
         if rai == 'never':
             out['violated'].append('never-raises')
+    for k, g in ghosts.items():
+        env[k] = g
     for name, text in clauses.items():
         t = text
         for oe, val in olds.items():
@@ -159,7 +204,7 @@ def attempt(req, cmod, c, member_expr):
             env[key] = val
             t = t.replace(f'old({oe})', key)
         try:
-            ok = bool(eval(t, ns, dict(env)))
+            ok = bool(eval(lazy(t), ns, dict(env)))
             out['clauses'][name] = ok
             if not ok:
                 out['violated'].append(('ensures.' if out['outcome'] == 'ret' else 'raises.') + name)
@@ -167,6 +212,21 @@ def attempt(req, cmod, c, member_expr):
             out['clauses'][name] = f'error: {type(e).__name__}: {e}'
             out['violated'].append(('ensures.' if out['outcome'] == 'ret' else 'raises.') + name)
     return out
+
+
+def _snapshot(v):
+    """old(...) value: containers are copied (one level deep for dict/list/set values), objects kept by reference"""
+    if isinstance(v, dict):
+        return {k: _snapshot(x) for k, x in v.items()}
+    if isinstance(v, list):
+        return [_snapshot(x) for x in v]
+    if isinstance(v, set):
+        return set(v)
+    if isinstance(v, tuple):
+        return tuple(_snapshot(x) for x in v)
+    if isinstance(v, (int, float, str, bytes, bool, type(None))):
+        return v
+    return v
 
 
 def main():
